@@ -22,7 +22,7 @@ Definition acc (op : dop) (o : ofd) : bool :=
 (* open(2) on the file system, by the kernel's rules: the files afterwards and
    the attributes of the new description *)
 Definition sopen (f : fsys) (p : pth) (r w : bool) (fl : oflags) : option (fsys * ofd) :=
-  match k_resolve f p fl with
+  match k_resolve f p w fl with
   | (f', Ok k) => Some (f', mkOfd (FPath k) r w (f_append fl))
   | (_, Err _) => None
   end.
@@ -37,13 +37,13 @@ Definition spec_new (nc : bool) (f : fsys) (b : body) : option (fsys * ofd) :=
   | BFile FileOut p =>
       if nc then
         (* noclobber: never onto an existing regular file; a missing file is
-           created; anything else that exists is opened as it is *)
+           created; a directory cannot be opened for writing *)
         match p with
         | PBad => None
         | PKey k =>
             match fs_get f k with
             | Some (Reg _ _) => None
-            | Some Dir => Some (f, mkOfd (FPath k) false true false)
+            | Some Dir => None
             | None => Some (fs_set f k (Reg [] false), mkOfd (FPath k) false true false)
             end
         end
